@@ -74,6 +74,12 @@ def worlds(tier, focus):
         for limit, n_ in (((2, 6),) if tier != 'thorough' else ((2, 6), (3, 8))):
             W.append(('equal-durations limit=%d n=%d' % (limit, n_),
                       World([Scen('q%d' % i, 'C', 0, None, durs=(1,), fails=(False,)) for i in range(n_)], limit)))
+    if focus == 'C06':
+        # a delayed retry becomes due while every slot is taken by long attempts: it waits for a slot like anything else
+        for dl in ((8,) if tier != 'thorough' else (6, 8, 12)):
+            W.append(('delayed-retry+long-bystanders limit=2 long=%d' % dl,
+                      World([Scen('r', 'C', 0, None, budget=1, delay=True, durs=(0, 0), fails=(True, False)), Scen('a', 'C', 0, None, durs=(dl,), fails=(False,)),
+                             Scen('b', 'C', 0, None, durs=(dl,), fails=(False,))], 2)))
     if focus in ('C04', 'C07', 'C03', 'C05'):
         # lazily delivered features (parser stream Pending `late` polls before an item)
         for late in ((1, 2) if tier != 'thorough' else (1, 2, 3, 5)):
